@@ -145,7 +145,7 @@ theorem C13_carries_psi (E : Ext) (t : Template) (ht : t ∈ allTable) (i : Nat)
 /-- **C13_carries (RAN node name)** (the NG Setup wrapper) -/
 theorem C13_carries_name (E : Ext) (t : Template) (ht : t ∈ allTable) (i : Nat) (hi : roleIdx t .name = some i)
     (plmn : Bytes) (args : List Val) (pdu : Val) (h : Shaped E t plmn args pdu) (a : Val) (ha : args[i]? = some a) :
-    ∃ v, ieValuesById pdu (ieRANNodeName : Int) = some [some v] ∧ Val.at [0] v = some a := by
+    ∃ v, ieValuesById pdu (ieRANNodeName : Int) = some [some v] ∧ Val.at [0] v = some (.str (bytesOf a)) := by
   obtain ⟨tm, htm, hp⟩ := h
   have hT := List.all_eq_true.mp name_table t ht
   unfold nameOK at hT
